@@ -414,6 +414,7 @@ func (m *Uint64Map) EachItem(f func(id uint64, tagged []Tagged, goroutine int) e
 			Tags: make([]Tagged, 0, m.MaxBucketLength()/8),
 		}
 		var err error
+	read:
 		for bucket := range buckets {
 			m.fillIDsAndTagged(bucket, &ids)
 			if len(ids.IDs) > 0 {
@@ -421,7 +422,7 @@ func (m *Uint64Map) EachItem(f func(id uint64, tagged []Tagged, goroutine int) e
 				for i := 1; i < len(ids.IDs); i++ {
 					if ids.IDs[i] != ids.IDs[start] {
 						if err = f(ids.IDs[start], ids.Tags[start:i], goroutine); err != nil {
-							break
+							break read
 						}
 						start = i
 					}
